@@ -1,12 +1,437 @@
-import Gallia.Model.Server
-import Gallia.Spec.IsoDefault
+import Gallia.Proofs.Lemmas.Server
 import Gallia.Gen.C13Chain
+/-
+  C13 - the virtual ECU answers by the ISO 14229-1 default response rules.
+  `respond` (Model/Server.lean) follows `UDSServer.respond` statement by statement; `isoDefault`
+  (Spec/IsoDefault.lean) is the priority list of the standard. Property theorems only.
+-/
 namespace Gallia.C13
 open Gallia Gallia.Server Gallia.IsoDefault
 
-/-- (T) the model's rule order is the order of the `if` statements of `respond_without_state_change` -/
+/-! ### (T) regenerated tables -/
+
+/-- the model's rule order is the order of the `if` statements of `respond_without_state_change`, each guarded
+    by the switch of the same name; then the handler, then `default_response_if_none` -/
 theorem chain_order_agrees :
     Gen.C13Chain.chain = chain.map (fun i => (i.name, i.name)) ++
       [("", "respond_after_default"), (Sw.none_.name, Sw.none_.name)] := by decide
+
+/-- `respond` = chain, then `update_state`, then the (guarded) suppression -/
+theorem respond_order_agrees :
+    Gen.C13Chain.respondCalls = ["respond_without_state_change", "update_state", Sw.suppress.name] := by decide
+
+/-- the nine switches, all on by default -/
+theorem switches_agree : Gen.C13Chain.behaviorFields = Sw.all.map (fun i => (i.name, allOn i)) := by decide
+
+/-- sub-function services, NRC values, service ids and the session identifier used by the model -/
+theorem tables_agree :
+    Gen.C13Chain.subFnServices = subFnServices ∧
+    Gen.C13Chain.nrc = [("generalReject", nrcGeneralReject), ("serviceNotSupported", nrcSNS),
+      ("subFunctionNotSupported", nrcSFNS), ("incorrectMessageLengthOrInvalidFormat", nrcLength),
+      ("requestSequenceError", nrcSequence), ("invalidKey", nrcInvalidKey),
+      ("subFunctionNotSupportedInActiveSession", nrcSFNSIAS), ("serviceNotSupportedInActiveSession", nrcSNSIAS)] ∧
+    Gen.C13Chain.sid = [("DiagnosticSessionControl", sidDSC), ("EcuReset", sidReset), ("ReadDataByIdentifier", sidRDBI),
+      ("SecurityAccess", sidSA), ("RoutineControl", sidRoutine), ("TesterPresent", sidTP)] ∧
+    Gen.C13Chain.activeSessionDid = 0xF186 := by decide
+
+/-- which NRCs each rule method mentions (in source order) -/
+theorem rule_nrcs_agree :
+    Gen.C13Chain.ruleNrcs = [
+      (Sw.sns.name, ["serviceNotSupportedInActiveSession", "serviceNotSupported"]),
+      (Sw.missingSub.name, ["incorrectMessageLengthOrInvalidFormat"]),
+      (Sw.sfns.name, ["subFunctionNotSupportedInActiveSession", "subFunctionNotSupported"]),
+      (Sw.format.name, ["incorrectMessageLengthOrInvalidFormat"]),
+      (Sw.sessChange.name, []), (Sw.sessRead.name, []), (Sw.testerPresent.name, []),
+      (Sw.none_.name, ["generalReject"]), (Sw.suppress.name, [])] := by decide
+
+/-- the NRCs of the specification's priority list are the ones of the code's enum -/
+theorem iso_rule_codes :
+    isoRules.map (·.nrc) = [nrcSNS, nrcSNSIAS, nrcLength, nrcSFNS, nrcSFNSIAS, nrcLength] := by decide
+
+/-! ### the headline: with every default behaviour on, the code model is the ISO priority list -/
+
+/-- for every ECU model (a dict whose sub-function services carry lists), every handler, every state whose session
+    the ECU offers and every non-empty request: answer, state afterwards and silence are those of the standard -/
+theorem respond_default_iso (m : Model) (h : Handler) (st : SrvState) (r : Req) (hr : Ready m st)
+    (hne : r.pdu ≠ []) :
+    respond allOn m h st r = .ok (isoDefault m h st r).1 (isoDefault m h st r).2 := by
+  have ha := answer_allOn m h st r hr hne
+  unfold respond respondWith
+  unfold respondNoState at ha
+  rw [ha]
+  simp only [isoDefault, updateState_eq_isoState, suppressed, allOn, Bool.true_and]
+  congr 1
+  cases hraw : r.raw with
+  | true =>
+    have := isoAnswer_neg_of_raw m h st r hraw
+    simp [this]
+  | false => simp [Req.suppressBit, Req.isSubFnReq, isoSuppressBit, hraw]
+
+/-- in particular the two `assert`s and the `pdu[1]` access are never hit with the defaults on -/
+theorem respond_never_crashes_allOn (m : Model) (h : Handler) (st : SrvState) (r : Req) (hr : Ready m st)
+    (hne : r.pdu ≠ []) (c : Crash) : respond allOn m h st r ≠ .crash c := by
+  rw [respond_default_iso m h st r hr hne]; simp
+
+/-! ### priority: each rule wins over all later ones (replies as sent, state afterwards included) -/
+
+/-- a negative reply is sent as it is and only clears the seed memory -/
+theorem iso_negative_outcome (m : Model) (h : Handler) (st : SrvState) (r : Req) (n : Nat)
+    (hx : isoNegative m st r = some n) :
+    isoDefault m h st r = ({ st with lastSA := none }, some (.neg r.sid n)) := by
+  simp [isoDefault, isoAnswer, hx, Resp.isNeg, isoState, isoSession, isoLevel, isoSeedMemory]
+
+/-- 1. unknown in every session: serviceNotSupported - whatever length, sub-function, parse result -/
+theorem priority_sns (m : Model) (h : Handler) (st : SrvState) (r : Req) (hr : Ready m st) (hne : r.pdu ≠ [])
+    (h1 : svcAnywhere m r.sid = false) :
+    respond allOn m h st r = .ok { st with lastSA := none } (some (.neg r.sid nrcSNS)) := by
+  rw [respond_default_iso m h st r hr hne, iso_negative_outcome m h st r nrcSNS]
+  simp [isoNegative, isoRules, h1, nrcSNS]
+
+/-- 2. known, but not in the active session: serviceNotSupportedInActiveSession - before any length or
+    sub-function consideration -/
+theorem priority_snsias (m : Model) (h : Handler) (st : SrvState) (r : Req) (hr : Ready m st) (hne : r.pdu ≠ [])
+    (h1 : svcAnywhere m r.sid = true) (h2 : svcIn m st.session r.sid = false) :
+    respond allOn m h st r = .ok { st with lastSA := none } (some (.neg r.sid nrcSNSIAS)) := by
+  rw [respond_default_iso m h st r hr hne, iso_negative_outcome m h st r nrcSNSIAS]
+  simp [isoNegative, isoRules, List.find?, h1, h2, nrcSNSIAS]
+
+/-- 3. offered here, has a sub-function, the byte is missing: incorrectMessageLengthOrInvalidFormat - before the
+    sub-function rules -/
+theorem priority_missing_sub (m : Model) (h : Handler) (st : SrvState) (r : Req) (hr : Ready m st) (hne : r.pdu ≠ [])
+    (h2 : svcIn m st.session r.sid = true) (h3 : r.hasSubFn = true) (h4 : r.pdu.length < 2) :
+    respond allOn m h st r = .ok { st with lastSA := none } (some (.neg r.sid nrcLength)) := by
+  have h1 := svcIn_anywhere hr.sess h2
+  rw [respond_default_iso m h st r hr hne, iso_negative_outcome m h st r nrcLength]
+  simp [isoNegative, isoRules, List.find?, h1, h2, h3, h4, nrcLength]
+
+/-- 4. sub-function listed in no session: subFunctionNotSupported - even if the request does not parse -/
+theorem priority_sfns (m : Model) (h : Handler) (st : SrvState) (r : Req) (hr : Ready m st) (hne : r.pdu ≠ [])
+    (h2 : svcIn m st.session r.sid = true) (h3 : subFnChecked r = true) (h4 : ¬ r.pdu.length < 2)
+    (h5 : subAnywhere m r.sid r.subFn = false) :
+    respond allOn m h st r = .ok { st with lastSA := none } (some (.neg r.sid nrcSFNS)) := by
+  have h1 := svcIn_anywhere hr.sess h2
+  rw [respond_default_iso m h st r hr hne, iso_negative_outcome m h st r nrcSFNS]
+  simp [isoNegative, isoRules, List.find?, h1, h2, h3, h4, h5, nrcSFNS]
+
+/-- 5. sub-function listed elsewhere only: subFunctionNotSupportedInActiveSession - even if the request does not parse -/
+theorem priority_sfnsias (m : Model) (h : Handler) (st : SrvState) (r : Req) (hr : Ready m st) (hne : r.pdu ≠ [])
+    (h2 : svcIn m st.session r.sid = true) (h3 : subFnChecked r = true) (h4 : ¬ r.pdu.length < 2)
+    (h5 : subAnywhere m r.sid r.subFn = true) (h6 : subIn m st.session r.sid r.subFn = false) :
+    respond allOn m h st r = .ok { st with lastSA := none } (some (.neg r.sid nrcSFNSIAS)) := by
+  have h1 := svcIn_anywhere hr.sess h2
+  rw [respond_default_iso m h st r hr hne, iso_negative_outcome m h st r nrcSFNSIAS]
+  simp [isoNegative, isoRules, List.find?, h1, h2, h3, h4, h5, h6, nrcSFNSIAS]
+
+/-- 6. service and sub-function fine, request does not parse: incorrectMessageLengthOrInvalidFormat - before any
+    service handling -/
+theorem priority_format (m : Model) (h : Handler) (st : SrvState) (r : Req) (hr : Ready m st) (hne : r.pdu ≠ [])
+    (h2 : svcIn m st.session r.sid = true) (h3 : r.hasSubFn = true → ¬ r.pdu.length < 2)
+    (h5 : subFnChecked r = true → subIn m st.session r.sid r.subFn = true) (hraw : r.raw = true) :
+    respond allOn m h st r = .ok { st with lastSA := none } (some (.neg r.sid nrcLength)) := by
+  have h1 := svcIn_anywhere hr.sess h2
+  rw [respond_default_iso m h st r hr hne, iso_negative_outcome m h st r nrcLength]
+  cases hs : r.hasSubFn with
+  | false => simp [isoNegative, isoRules, List.find?, h1, h2, hs, subFnChecked, hraw, nrcLength]
+  | true =>
+    have h4 := h3 hs
+    cases hc : subFnChecked r with
+    | false => simp [isoNegative, isoRules, List.find?, h1, h2, h4, hc, hraw, nrcLength]
+    | true =>
+      have h6 := h5 hc
+      have h7 := subIn_anywhere hr.sess h6
+      simp [isoNegative, isoRules, List.find?, h1, h2, h4, hc, h6, h7, hraw, nrcLength]
+
+/-- 7. only when no general rule applies does the service stage (session control, session read, tester present,
+    handler, generalReject) answer -/
+theorem service_stage (m : Model) (h : Handler) (st : SrvState) (r : Req) (hr : Ready m st) (hne : r.pdu ≠ [])
+    (h2 : svcIn m st.session r.sid = true) (h3 : r.hasSubFn = true → ¬ r.pdu.length < 2)
+    (h5 : subFnChecked r = true → subIn m st.session r.sid r.subFn = true) (hraw : r.raw = false) :
+    respondNoState allOn m h st r = .resp (isoService h st r) := by
+  have h1 := svcIn_anywhere hr.sess h2
+  rw [answer_allOn m h st r hr hne]
+  congr 1
+  cases hs : r.hasSubFn with
+  | false => simp [isoAnswer, isoNegative, isoRules, List.find?, h1, h2, hs, subFnChecked, hraw]
+  | true =>
+    have h4 := h3 hs
+    cases hc : subFnChecked r with
+    | false => simp [isoAnswer, isoNegative, isoRules, List.find?, h1, h2, h4, hc, hraw]
+    | true =>
+      have h6 := h5 hc
+      have h7 := subIn_anywhere hr.sess h6
+      simp [isoAnswer, isoNegative, isoRules, List.find?, h1, h2, h4, hc, h6, h7, hraw]
+
+/-- RoutineControl is exempt from the sub-function rules: a parsable request for an offered RoutineControl reaches
+    the service stage whatever the model lists as its sub-functions -/
+theorem routine_control_exempt (m : Model) (h : Handler) (st : SrvState) (r : Req) (hr : Ready m st)
+    (hsid : r.sid = sidRoutine) (h2 : svcIn m st.session r.sid = true) (h4 : ¬ r.pdu.length < 2)
+    (hraw : r.raw = false) :
+    respondNoState allOn m h st r = .resp ((h st r).getD (.neg r.sid nrcGeneralReject)) := by
+  have hne : r.pdu ≠ [] := by intro h0; simp [h0] at h4
+  rw [service_stage m h st r hr hne h2 (fun _ => h4) (by simp [subFnChecked, hsid]) hraw]
+  simp [isoService, hsid, sidRoutine, sidDSC, sidRDBI, sidTP, nrcGeneralReject]
+
+/-! ### suppression -/
+
+/-- defaults on: the reply is omitted iff the answer is positive and the request carries the suppress bit -/
+theorem suppress_iff (m : Model) (h : Handler) (st : SrvState) (r : Req) (hr : Ready m st) (hne : r.pdu ≠ []) :
+    (∃ st', respond allOn m h st r = .ok st' none) ↔
+      ((isoAnswer m h st r).isNeg = false ∧ isoSuppressBit r = true) := by
+  rw [respond_default_iso m h st r hr hne]
+  simp only [isoDefault]
+  cases h1 : (isoAnswer m h st r).isNeg <;> cases h2 : isoSuppressBit r <;> simp
+
+/-- every switch subset: what `respond` does with an answer `x` of the chain - the state update always happens,
+    the reply is dropped iff the suppress switch is on, `x` is positive and the parsed request carries the bit -/
+theorem respond_of_answer (b : Behavior) (m : Model) (h : Handler) (st : SrvState) (r : Req) (x : Resp)
+    (hx : respondNoState b m h st r = .resp x) :
+    respond b m h st r =
+      .ok (updateState st x) (if b .suppress = true ∧ x.isNeg = false ∧ r.suppressBit = true then none else some x) := by
+  unfold respondNoState at hx
+  unfold respond respondWith
+  rw [hx]
+  simp [suppressed, and_assoc]
+
+/-- negative replies are never suppressed, under any switch subset -/
+theorem neg_never_suppressed (b : Behavior) (m : Model) (h : Handler) (st : SrvState) (r : Req) (s n : Nat)
+    (hx : respondNoState b m h st r = .resp (.neg s n)) :
+    respond b m h st r = .ok { st with lastSA := none } (some (.neg s n)) := by
+  rw [respond_of_answer b m h st r _ hx]
+  simp [Resp.isNeg, updateState]
+
+/-- the reply to a request that did not parse is never suppressed (it is not a sub-function request) -/
+theorem raw_never_suppressed (b : Behavior) (m : Model) (h : Handler) (st : SrvState) (r : Req) (x : Resp)
+    (hraw : r.raw = true) (hx : respondNoState b m h st r = .resp x) :
+    respond b m h st r = .ok (updateState st x) (some x) := by
+  rw [respond_of_answer b m h st r _ hx]
+  simp [Req.suppressBit, Req.isSubFnReq, hraw]
+
+/-- with the suppress switch off every answer is sent -/
+theorem disable_suppress (b : Behavior) (m : Model) (h : Handler) (st : SrvState) (r : Req) (x : Resp)
+    (hx : respondNoState b m h st r = .resp x) :
+    respond (b.off .suppress) m h st r = .ok (updateState st x) (some x) := by
+  have hx' : respondNoState (b.off .suppress) m h st r = .resp x := by
+    have e : runChain (b.off .suppress) m st r chain = runChain b m st r chain := by
+      rw [runChain_off]; rfl
+    unfold respondNoState respondNoStateWith at hx ⊢
+    rw [e]
+    cases hp : r.pdu.isEmpty with
+    | true => simp [hp] at hx
+    | false =>
+      simp only [hp, Bool.false_eq_true, if_false] at hx ⊢
+      cases hc : runChain b m st r chain <;> simp [hc, finish, Behavior.off] at hx ⊢ <;> exact hx
+  rw [respond_of_answer _ m h st r _ hx']
+  simp [Behavior.off]
+
+/-! ### state changes -/
+
+/-- the session changes only with a positive DiagnosticSessionControl reply (to its session) or a positive
+    ECUReset reply (to the default session) - sent or suppressed, under any switch subset -/
+theorem session_changes_only_on_positive_dsc (b : Behavior) (m : Model) (h : Handler) (st st' : SrvState) (r : Req)
+    (reply : Option Resp) (hok : respond b m h st r = .ok st' reply) (hch : st'.session ≠ st.session) :
+    ∃ x, respondNoState b m h st r = .resp x ∧
+      ((∃ t rec, x = .dsc t rec ∧ st'.session = t) ∨ (∃ p, x = .reset p ∧ st'.session = 1)) := by
+  unfold respond respondWith at hok
+  unfold respondNoState
+  cases hp : respondNoStateWith chain b m h st r with
+  | crash c => simp [hp] at hok
+  | silent => simp [hp] at hok; exact absurd (by rw [← hok.1]) hch
+  | resp x =>
+    simp only [hp, Outcome.ok.injEq] at hok
+    refine ⟨x, rfl, ?_⟩
+    obtain ⟨hst, _⟩ := hok
+    subst hst
+    cases x with
+    | dsc t rec => left; exact ⟨t, rec, rfl, by simp [updateState]⟩
+    | reset p => right; exact ⟨p, rfl, by simp [updateState, SrvState.reset]⟩
+    | sa t seed => exfalso; apply hch; by_cases ht : t % 2 = 0 <;> simp [updateState, ht]
+    | _ => exfalso; apply hch; simp [updateState]
+
+/-- the security level is unlocked only by a positive sendKey reply (even type `t`, level `t - 1`) and re-locked
+    only by a positive session-control or reset reply -/
+theorem security_only_on_positive_even_sa (b : Behavior) (m : Model) (h : Handler) (st st' : SrvState) (r : Req)
+    (reply : Option Resp) (hok : respond b m h st r = .ok st' reply) (hch : st'.level ≠ st.level) :
+    ∃ x, respondNoState b m h st r = .resp x ∧
+      ((∃ t seed, x = .sa t seed ∧ t % 2 = 0 ∧ st'.level = some ((t : Int) - 1)) ∨
+       (((∃ t rec, x = .dsc t rec) ∨ (∃ p, x = .reset p)) ∧ st'.level = none)) := by
+  unfold respond respondWith at hok
+  unfold respondNoState
+  cases hp : respondNoStateWith chain b m h st r with
+  | crash c => simp [hp] at hok
+  | silent => simp [hp] at hok; exact absurd (by rw [← hok.1]) hch
+  | resp x =>
+    simp only [hp, Outcome.ok.injEq] at hok
+    refine ⟨x, rfl, ?_⟩
+    obtain ⟨hst, _⟩ := hok
+    subst hst
+    cases x with
+    | dsc t rec => right; exact ⟨Or.inl ⟨t, rec, rfl⟩, by simp [updateState, SrvState.reset]⟩
+    | reset p => right; exact ⟨Or.inr ⟨p, rfl⟩, by simp [updateState, SrvState.reset]⟩
+    | sa t seed =>
+      by_cases ht : t % 2 = 0
+      · left; exact ⟨t, seed, rfl, ht, by simp [updateState, ht]⟩
+      · exfalso; apply hch; simp [updateState, ht]
+    | _ => exfalso; apply hch; simp [updateState]
+
+/-- a positive session-control reply (sent or suppressed) activates that session, locked, seed forgotten -/
+theorem session_on_positive_dsc (b : Behavior) (m : Model) (h : Handler) (st : SrvState) (r : Req) (t : Nat)
+    (rec : Bytes) (hx : respondNoState b m h st r = .resp (.dsc t rec)) :
+    ∃ reply, respond b m h st r = .ok ⟨t, none, none⟩ reply := by
+  rw [respond_of_answer b m h st r _ hx]
+  have e : updateState st (.dsc t rec) = ⟨t, none, none⟩ := by simp [updateState, SrvState.reset]
+  rw [e]; exact ⟨_, rfl⟩
+
+/-- a positive ECUReset reply returns to the default session, locked -/
+theorem reset_on_positive_reset (b : Behavior) (m : Model) (h : Handler) (st : SrvState) (r : Req) (p : Bytes)
+    (hx : respondNoState b m h st r = .resp (.reset p)) :
+    ∃ reply, respond b m h st r = .ok ⟨1, none, none⟩ reply := by
+  rw [respond_of_answer b m h st r _ hx]
+  have e : updateState st (.reset p) = ⟨1, none, none⟩ := by simp [updateState, SrvState.reset]
+  rw [e]; exact ⟨_, rfl⟩
+
+/-- a positive sendKey reply unlocks exactly its level and keeps the session -/
+theorem unlock_on_positive_sendkey (b : Behavior) (m : Model) (h : Handler) (st : SrvState) (r : Req) (t : Nat)
+    (seed : Bytes) (ht : t % 2 = 0) (hx : respondNoState b m h st r = .resp (.sa t seed)) :
+    ∃ reply, respond b m h st r = .ok ⟨st.session, some ((t : Int) - 1), some (t, seed)⟩ reply := by
+  rw [respond_of_answer b m h st r _ hx]
+  have e : updateState st (.sa t seed) = ⟨st.session, some ((t : Int) - 1), some (t, seed)⟩ := by
+    simp [updateState, ht]
+  rw [e]; exact ⟨_, rfl⟩
+
+/-- TesterPresent leaves the whole state alone, the seed memory included -/
+theorem tester_present_keeps_state (b : Behavior) (m : Model) (h : Handler) (st : SrvState) (r : Req)
+    (hx : respondNoState b m h st r = .resp .tp) : ∃ reply, respond b m h st r = .ok st reply := by
+  rw [respond_of_answer b m h st r _ hx]
+  have e : updateState st .tp = st := by simp [updateState]
+  rw [e]; exact ⟨_, rfl⟩
+
+/-! ### disabling one behaviour only removes that rule -/
+
+/-- switching rule `i` of the chain off is the same server with that rule deleted from the chain - for every
+    setting of the other eight switches, every model, state and request -/
+theorem disable_one (b : Behavior) (m : Model) (h : Handler) (st : SrvState) (r : Req) (i : Sw) (hi : i ∈ chain) :
+    respond (b.off i) m h st r = respondWith (chain.filter (· ≠ i)) b m h st r := by
+  have hn : (b.off i) .none_ = b .none_ := by
+    simp only [Behavior.off]; split
+    · next e => subst e; simp [chain] at hi
+    · rfl
+  have hsup : (b.off i) .suppress = b .suppress := by
+    simp only [Behavior.off]; split
+    · next e => subst e; simp [chain] at hi
+    · rfl
+  have hf : ∀ o, finish (b.off i) h st r o = finish b h st r o := by
+    intro o; cases o <;> simp [finish, hn]
+  unfold respond respondWith respondNoStateWith
+  rw [runChain_off, hf]
+  simp only [suppressed, hsup]
+  rfl
+
+/-- ... and if rule `i` would not have fired on this request (or was off already) nothing changes at all -/
+theorem off_i_only_affects_rule_i (b : Behavior) (m : Model) (h : Handler) (st : SrvState) (r : Req) (i : Sw)
+    (hi : i ∈ chain) (hp : b i = false ∨ evalRule i m st r = .pass) :
+    respond (b.off i) m h st r = respond b m h st r := by
+  rw [disable_one b m h st r i hi]
+  unfold respond respondWith respondNoStateWith
+  rw [runChain_drop_pass b m st r i chain hp]
+
+/-- the rules in front of `i` are unaffected: if one of them fires, it fires with `i` off just the same -/
+theorem off_i_keeps_earlier (b : Behavior) (m : Model) (st : SrvState) (r : Req) (i : Sw) (pre post : List Sw)
+    (hpre : i ∉ pre) (x : RuleOut) (hx : runChain b m st r pre = x) (hfire : x ≠ .pass) :
+    runChain (b.off i) m st r (pre ++ post) = x := by
+  induction pre with
+  | nil => simp [runChain] at hx; exact absurd hx.symm hfire
+  | cons j rest ih =>
+    have hj : j ≠ i := fun e => hpre (by simp [e])
+    have hrest : i ∉ rest := fun e => hpre (by simp [e])
+    simp only [List.cons_append, runChain, Behavior.off, hj, if_false] at hx ⊢
+    cases hb : b j with
+    | false => simp only [hb, Bool.false_eq_true, if_false] at hx ⊢; exact ih hrest hx
+    | true =>
+      simp only [hb, if_true] at hx ⊢
+      cases he : evalRule j m st r with
+      | pass => simp only [he] at hx ⊢; exact ih hrest hx
+      | fire y => simpa [he] using hx
+      | crash c => simpa [he] using hx
+
+/-- `default_response_if_none` off: where the chain and the handler have no answer the server stays silent and
+    keeps its state; every other request is answered as before -/
+theorem disable_none (b : Behavior) (m : Model) (h : Handler) (st : SrvState) (r : Req) :
+    respond (b.off .none_) m h st r =
+      if r.pdu.isEmpty = false ∧ runChain b m st r chain = .pass ∧ h st r = none then .ok st none
+      else respond b m h st r := by
+  have e : runChain (b.off .none_) m st r chain = runChain b m st r chain := by rw [runChain_off]; rfl
+  have hsup : (b.off .none_) .suppress = b .suppress := by simp [Behavior.off]
+  unfold respond respondWith respondNoStateWith
+  rw [e]
+  cases hp : r.pdu.isEmpty with
+  | true => simp
+  | false =>
+    cases hc : runChain b m st r chain with
+    | fire x => simp [finish, suppressed, hsup]
+    | crash c => simp [finish]
+    | pass =>
+      cases hh : h st r with
+      | some x => simp [finish, hh, suppressed, hsup]
+      | none => simp [finish, hh, Behavior.off]
+
+/-! ### which requests change the session when the defaults are on -/
+
+/-- defaults on, a handler that (like `RandomUDSServer`'s) never fabricates session-control or reset replies:
+    the session changes only through a parsed DiagnosticSessionControl request whose sub-function is listed
+    for the active session, and it changes to exactly that sub-function -/
+theorem session_change_needs_listed_dsc (m : Model) (h : Handler) (st st' : SrvState) (r : Req) (reply : Option Resp)
+    (hr : Ready m st) (hne : r.pdu ≠ [])
+    (hh : ∀ x, h st r = some x → (∀ t rec, x ≠ .dsc t rec) ∧ (∀ p, x ≠ .reset p))
+    (hok : respond allOn m h st r = .ok st' reply) (hch : st'.session ≠ st.session) :
+    r.sid = sidDSC ∧ r.raw = false ∧ st'.session = r.subFn ∧ subIn m st.session sidDSC r.subFn = true := by
+  obtain ⟨x, hx, hcase⟩ := session_changes_only_on_positive_dsc allOn m h st st' r reply hok hch
+  rw [answer_allOn m h st r hr hne] at hx
+  have hx : isoAnswer m h st r = x := by simpa using hx
+  -- the answer is positive, so no negative rule applied
+  unfold isoAnswer at hx
+  cases hn : isoNegative m st r with
+  | some n => rw [hn] at hx; subst hx; rcases hcase with ⟨t, rec, e, _⟩ | ⟨p, e, _⟩ <;> simp at e
+  | none =>
+    rw [hn] at hx
+    simp only at hx
+    have hnone := hn
+    unfold isoNegative at hnone
+    have hall := List.find?_eq_none.mp (by simpa using hnone)
+    have hraw : r.raw = false := by
+      have := hall ⟨"incorrectMessageLengthOrInvalidFormat (request does not parse)", 0x13, fun _ _ r => r.raw⟩
+        (by simp [isoRules])
+      simpa using this
+    have h5 : ¬ (subFnChecked r && !subIn m st.session r.sid r.subFn) = true := by
+      have := hall ⟨"subFunctionNotSupportedInActiveSession", 0x7E,
+        fun m st r => subFnChecked r && !subIn m st.session r.sid r.subFn⟩ (by simp [isoRules])
+      simpa using this
+    unfold isoService at hx
+    by_cases g1 : (r.sid == sidDSC) = true
+    · have hsid : r.sid = sidDSC := by simpa using g1
+      simp only [g1, if_true] at hx
+      subst hx
+      rcases hcase with ⟨t, rec, e, hs'⟩ | ⟨p, e, _⟩
+      · have : r.subFn = t := by
+          have e' := e; simp at e'; exact e'.1
+        have hck : subFnChecked r = true := by simp [subFnChecked, Req.hasSubFn, hsid, subFnServices, sidDSC, sidRoutine]
+        refine ⟨hsid, hraw, by rw [hs', this], ?_⟩
+        rw [hck] at h5
+        rw [← hsid]
+        simpa using h5
+      · simp at e
+    · simp only [g1, Bool.false_eq_true, if_false] at hx
+      exfalso
+      split at hx
+      · subst hx; rcases hcase with ⟨t, rec, e, _⟩ | ⟨p, e, _⟩ <;> simp at e
+      · split at hx
+        · subst hx; rcases hcase with ⟨t, rec, e, _⟩ | ⟨p, e, _⟩ <;> simp at e
+        · cases hhr : h st r with
+          | none => rw [hhr] at hx; simp at hx; subst hx; rcases hcase with ⟨t, rec, e, _⟩ | ⟨p, e, _⟩ <;> simp at e
+          | some y =>
+            rw [hhr] at hx; simp at hx; subst hx
+            have := hh y hhr
+            rcases hcase with ⟨t, rec, e, _⟩ | ⟨p, e, _⟩
+            · exact this.1 t rec e
+            · exact this.2 p e
 
 end Gallia.C13
